@@ -2,6 +2,7 @@
 from fractions import Fraction
 
 from ..common import rng
+from ..drivers import behaviours
 from ..drivers import programs, targeted
 from ._twin import replay_programs, run_programs
 
@@ -27,6 +28,20 @@ def check(run, tier):
                                       maxunits=64, direct=True, comps=False, big_geom=big, small=not big,
                                       weights={"transfer": 2, "distribute": 1, "aspirate": 2, "dispense": 2, "add": 3, "remove": 3})
         progs.append(p)
+    # specification -> code: behaviours enumerated by TLC on the bounded model, replayed on the implementation
+    for cfg in ("MC_TwinGen_labware1",) if q else ("MC_TwinGen_labware1", "MC_TwinGen_mixed2", "MC_TwinGen_transfer1"):
+        mprogs, res = behaviours.generate(cfg, timeout=3000)
+        if not mprogs:
+            run.machinery_errors.append(f"behaviour generation with {cfg} failed: {res.errors[:2]}")
+        run.states += res.distinct
+        run.transitions += res.generated
+        if q and len(mprogs) > 400:
+            # quick tier: a seeded sample of the enumerated behaviours (thorough replays all of them)
+            k = len(mprogs) // 400 + 1
+            mprogs = mprogs[r.randrange(k)::k]
+        run.extra.setdefault("model_behaviours_replayed", 0)
+        run.extra["model_behaviours_replayed"] += len(mprogs)
+        progs += mprogs
     run_programs(run, progs)
 
 
